@@ -56,7 +56,7 @@ Print Assumptions C10_eq_refl.
 
 (* non-vacuity: 0 (1 add 3 mod)* in the specification and in the engine model *)
 Example C10_nonvacuous :
-  let tc := ValueM.mktc 2 3 4 5 in
+  let tc := ValueM.mktc 2 3 4 5 [] in
   let P := mkparams tc (fun _ => 1%N) in
   let body := TScope (TCat [TConst 1 DDec; TRead (nm "add"); TConst 3 DDec; TRead (nm "mod")]) in
   let t := TCat [TConst 0 DDec; TStar body] in
